@@ -48,6 +48,7 @@ def _restore_method(module, cls, name):
 
 _restore_method(X.mut, MSF, "cancel_lease")
 PATH = X.share_path(0)
+IPATH = X.share_path(1)
 PARENT = X.Parent()
 RS = [X.tok("r", i) for i in range(4)]
 CS = [X.tok("c", i) for i in range(4)]
@@ -83,7 +84,14 @@ def _fake_sharecrawler_init(self, server, statefile, allowed_cpu_percentage=None
 
 expirer._HistorySerializer = _MemHistory
 crawler_mod.ShareCrawler.__init__ = _fake_sharecrawler_init
-expirer.get_share_file = lambda fn: MSF(fn, PARENT)
+def _open_share(fn):
+    # what allmydata.storage.shares.get_share_file does, on the fake file system: mutable iff the path says so (the real one sniffs the header)
+    if fn == IPATH:
+        return X.SF(fn)
+    return MSF(fn, PARENT)
+
+
+expirer.get_share_file = _open_share
 
 
 def _blank():
@@ -158,4 +166,60 @@ def _two_cycles(ea, eb, t1, t2, slot_b, version, cutoff_mode, cutoff):
                 return "cycle %d: leases left in the container are not exactly the unexpired ones (in their slots)" % cycle
         elif live:
             return "cycle %d: share deleted while an unexpired lease remained" % cycle
+    return True
+
+
+# ---- immutable container: several leases expiring in the same cycle -------------------------------------------------
+
+hlib.encoded(X.SF.cancel_lease, X.SF.get_leases, X.SF.__init__)
+
+
+def _imm_leases(st):
+    (version, hdr_len, cnt) = X.rec_values(st, 0, ">LLL")
+    return cnt
+
+
+def h_immutable_cycle(n: int, e0: int, e1: int, e2: int, now: int, version: int, cutoff_mode: bool, cutoff: int) -> bool:
+    """
+    pre: 1 <= n <= B.get("n_max", 3) and B.get("n_min", 1) <= n
+    pre: D31 <= e0 < X.U32 and D31 <= e1 < X.U32 and D31 <= e2 < X.U32
+    pre: 0 <= now and 1 <= version <= 2
+    pre: B.get("version") is None or version == B["version"]
+    pre: B.get("cutoff_mode") is None or cutoff_mode == B["cutoff_mode"]
+    post: _ == True
+    """
+    return X.guard(_immutable_cycle, n, e0, e1, e2, now, version, cutoff_mode, cutoff)
+
+
+def _immutable_cycle(n, e0, e1, e2, now, version, cutoff_mode, cutoff):
+    X.reset()
+    exps = [e0, e1, e2][:n]
+    recs = [X.ilease_rec(1 + i, X.hashed(version, RS[i]), X.hashed(version, CS[i]), exps[i]) for i in range(n)]
+    st = X.mk_immutable(IPATH, 10, recs, version=version)
+    ages = []
+    c = expirer.LeaseCheckingCrawler(NS(sharedir="/s/shares"), "statefile", "historyfile", True,
+                                     "cutoff-date" if cutoff_mode else "age", None, cutoff if cutoff_mode else None,
+                                     ("mutable", "immutable"))
+    c.stat = lambda fn: NS(st_size=10, st_blocks=1)
+    c.add_lease_age_to_histogram = lambda age: ages.append(age)
+    _Clock.now = now
+    c.started_cycle(1)
+    wks = c.process_share(IPATH)
+    keep = [e for e in exps if not _expired(e, now, cutoff_mode, cutoff)]
+    if len(ages) != n or c.state["cycle-to-date"]["leases-per-share-histogram"] != {str(n): 1}:
+        return "not every lease was examined"
+    if (wks[1] == 0) != (len(keep) == 0) or (wks[2] == 0) != (len(keep) == 0):
+        return "share reported %s although %d unexpired lease(s) remain" % ("removable" if wks[1] == 0 else "kept", len(keep))
+    exists = FS.os.path.exists(IPATH)
+    if not keep:
+        if exists:
+            return "all %d leases expired in this cycle but the share file is still there (with %d leases)" % (n, _imm_leases(st))
+        return True
+    if not exists:
+        return "share deleted while an unexpired lease remained"
+    if _imm_leases(st) != len(keep):
+        return "lease count in the container differs from the number of unexpired leases"
+    left = [X.rec_values(st, st.size - X.ILEASE * (len(keep) - i), ">L32s32sL")[3] for i in range(len(keep))]
+    if left != keep:
+        return "leases left in the container are not exactly the unexpired ones, in order"
     return True
